@@ -174,15 +174,21 @@ fn judge(db: &mut kolibrie::sparql_database::SparqlDatabase, snap: &ds::Dataset,
         Ok(g) => g,
         Err(e) => return Judged::Violation { sig: json!({"kind": "malformed_result_table"}), detail: json!({"error": e, "query": text}) },
     };
-    let v = legal(q, &got, &ans.full, ctx);
+    let canon = |rows: &[Row]| -> Vec<Row> {
+        rows.iter()
+            .map(|r| r.iter().map(|(k, v)| (k.clone(), if aggs.contains(k) { v.parse::<f64>().map(canon_num).unwrap_or_else(|_| v.clone()) } else { v.clone() })).collect())
+            .collect()
+    };
+    let full = canon(&ans.full);
+    let v = legal(q, &got, &full, ctx);
     if v.ok {
-        return Judged::Held { full: ans.full.len(), rows };
+        return Judged::Held { full: full.len(), rows };
     }
     // attribute: does one relaxed reading of SPARQL's error cases reproduce the engine?
     let mut cause = "unattributed".to_string();
     for (name, sem) in VARIANTS.iter() {
         if let Ok(a2) = Ev::with_sem(snap, q, *sem).eval_select_inner(q, &None) {
-            if legal(q, &got, &a2.full, ctx).ok {
+            if legal(q, &got, &canon(&a2.full), ctx).ok {
                 cause = name.to_string();
                 break;
             }
@@ -191,7 +197,7 @@ fn judge(db: &mut kolibrie::sparql_database::SparqlDatabase, snap: &ds::Dataset,
     if cause == "unattributed" {
         let all = Sem { error_is_false: true, non_numeric_is_zero: true, bind_unbound_is_empty: true, avg_of_nothing_is_unbound: true };
         if let Ok(a2) = Ev::with_sem(snap, q, all).eval_select_inner(q, &None) {
-            if legal(q, &got, &a2.full, ctx).ok {
+            if legal(q, &got, &canon(&a2.full), ctx).ok {
                 cause = "several_lexical_readings_of_expression_errors_combined".to_string();
             }
         }
@@ -202,7 +208,7 @@ fn judge(db: &mut kolibrie::sparql_database::SparqlDatabase, snap: &ds::Dataset,
         detail: json!({
             "why": v.why, "query": text, "entry_point": if legacy { "execute_query_rayon_parallel2_volcano" } else { "execute_sparql_query" },
             "dataset": snap.to_json(),
-            "expected_rows": ans.full.iter().take(12).map(|r| json!(r)).collect::<Vec<_>>(), "expected_count": ans.full.len(),
+            "expected_rows": full.iter().take(12).map(|r| json!(r)).collect::<Vec<_>>(), "expected_count": full.len(),
             "engine_rows": rows.iter().take(12).collect::<Vec<_>>(), "engine_count": rows.len(), "columns": cols,
         }),
     }
